@@ -629,6 +629,15 @@ func genHard(g *core.Gen) {
 		}
 	}
 	gc(g, "bdec2-len", true, "C16 bdec2 "+hx([]byte("a1qqqqq")))
+	// the separator must leave at least six characters: 5 / 6 / 7 characters after the last '1', HRP of 0 / 1 / 2 chars
+	for _, hl := range []int{0, 1, 2, 5} {
+		for _, dl := range []int{4, 5, 6, 7} {
+			s := strings.Repeat("a", hl) + "1" + string(randB58(r, 0)) + strings.Repeat("q", dl)
+			gc(g, "bdec-sep", true, "C16 bdec "+hx([]byte(s)))
+			gc(g, "bdec-sep", true, "C16 bdec2 "+hx([]byte(s)))
+			gc(g, "bdec-sep", true, "C16 dec mainnet "+hx([]byte("bc1"+strings.Repeat("q", dl))))
+		}
+	}
 	// WIF with the derived public key
 	for k := 0; k < g.N(40, 400); k++ {
 		id := ns[r.Intn(len(ns))].p.PrivateKeyID
